@@ -1,2 +1,23 @@
-// Package c17 binds the TLA+ specification of property C17 to the Go code.
+// Package c17 binds spec/sync (OnceConstructor.tla, Semaphore.tla, Pool.tla
+// and their generator / trace modules) to syncutil.OnceConstructor,
+// syncutil.ChanSemaphore and syncutil.Pool.
+//
+//   - replay-once / replay-sema: schedule replay (binding S): interleavings
+//     enumerated by TLC are forced on the real code through the gate scheduler.
+//   - stress-once / stress-sema / stress-pool: free-running goroutines (built
+//     with -race) whose invoke/return logs TLC validates (binding T).
 package c17
+
+import "verifharness/internal/vh"
+
+func init() {
+	vh.Register("c17", "replay-once", replayOnceCmd)
+	vh.Register("c17", "replay-sema", replaySemaCmd)
+	vh.Register("c17", "race-once", raceOnce)
+	vh.Register("c17", "race-sema", raceSema)
+	vh.Register("c17", "stress-once", stressOnce)
+	vh.Register("c17", "stress-sema-hwm", stressSemaHWM)
+	vh.Register("c17", "stress-sema", stressSema)
+	vh.Register("c17", "race-pool", racePool)
+	vh.Register("c17", "stress-pool", stressPool)
+}
